@@ -11,11 +11,16 @@ import (
 
 	"github.com/bandprotocol/chain/v3/pkg/obi"
 	"github.com/bandprotocol/chain/v3/testing/testdata"
+	bandtsstypes "github.com/bandprotocol/chain/v3/x/bandtss/types"
 	oracletypes "github.com/bandprotocol/chain/v3/x/oracle/types"
+	tsstypes "github.com/bandprotocol/chain/v3/x/tss/types"
 
 	tf "vdrive/tracefmt"
+	"vdrive/tsskit"
 	"vdrive/world"
 )
+
+const sigThreshold = 2 // threshold of the signing group: signing fee = fee_per_signer x 2
 
 var denomOf = map[string]string{"u": "uband", "x": "uxyz"}
 
@@ -50,6 +55,8 @@ func NewDriver(w *tf.Writer) *Driver {
 		a.Name = n
 		d.payers = append(d.payers, a)
 	}
+	// the first treasury also sends requests (for data sources that pay into it: a transfer to itself)
+	d.payers = append(d.payers, d.w.Treasuries[0])
 	return d
 }
 
@@ -60,13 +67,16 @@ func (d *Driver) project(r *world.Run) tf.M {
 	vec := func(a sdk.AccAddress) tf.M {
 		return tf.M{"u": int(bk.GetBalance(r.Ctx, a, "uband").Amount.Int64()), "x": int(bk.GetBalance(r.Ctx, a, "uxyz").Amount.Int64())}
 	}
-	bal, tre := tf.M{}, tf.M{}
+	bal := tf.M{}
 	for _, p := range d.payers {
 		bal[p.Name] = vec(p.Addr)
 	}
 	for _, t := range d.w.Treasuries {
-		tre[t.Name] = vec(t.Addr)
+		bal[t.Name] = vec(t.Addr)
 	}
+	bt := d.w.App.BandtssKeeper
+	esc := int(bk.GetBalance(r.Ctx, bt.GetBandtssAccount(r.Ctx).GetAddress(), "uband").Amount.Int64())
+	nsig := int(bt.GetSigningCount(r.Ctx))
 	k := d.w.App.OracleKeeper
 	n := k.GetRequestCount(r.Ctx)
 	remain := tf.M{"u": 0, "x": 0}
@@ -75,7 +85,7 @@ func (d *Driver) project(r *world.Run) tf.M {
 			remain = tf.M{"u": int(rq.FeeLimit.AmountOf("uband").Int64()), "x": int(rq.FeeLimit.AmountOf("uxyz").Int64())}
 		}
 	}
-	return tf.M{"bal": bal, "tre": tre, "nreq": int(n), "remain": remain}
+	return tf.M{"bal": bal, "nreq": int(n), "remain": remain, "esc": esc, "nsig": nsig}
 }
 
 func (d *Driver) RunScript(sc tf.Script) {
@@ -84,6 +94,39 @@ func (d *Driver) RunScript(sc tf.Script) {
 	for _, v := range d.w.Vals {
 		if o := r.Deliver(&oracletypes.MsgActivate{Validator: v.ValAddr.String()}); !o.OK() {
 			panic(o.Err)
+		}
+	}
+	// environment: a 2-of-3 signing group with plenty of nonce pairs is the current bandtss group; fee per signer of
+	// this trace (the signing fee of a result is fee_per_signer x threshold)
+	if sc.C == nil {
+		sc.C = tf.M{}
+	}
+	fps := tf.Int(sc.C, "fps", 1)
+	sc.C["sigFee"] = fps * sigThreshold
+	bp := d.w.App.BandtssKeeper.GetParams(r.Ctx)
+	bp.FeePerSigner = sdk.NewCoins()
+	if fps > 0 {
+		bp.FeePerSigner = sdk.NewCoins(sdk.NewInt64Coin("uband", int64(fps)))
+	}
+	bp.RewardPercentage = 0
+	if err := d.w.App.BandtssKeeper.SetParams(r.Ctx, bp); err != nil {
+		panic(err)
+	}
+	op := d.w.App.OracleKeeper.GetParams(r.Ctx)
+	op.OracleRewardPercentage = 0 // no block rewards: treasuries and escrow move only by fees
+	if err := d.w.App.OracleKeeper.SetParams(r.Ctx, op); err != nil {
+		panic(err)
+	}
+	grp := tsskit.NewGroup("of-g1", sigThreshold, d.w.Accts[1:4])
+	grp.Install(r.Ctx, d.w.App, bandtsstypes.ModuleName)
+	grp.InstallAsCurrent(r.Ctx, d.w.App)
+	for i, m := range grp.Members {
+		var pubs []tsstypes.DE
+		for j := 0; j < 40; j++ {
+			pubs = append(pubs, tsskit.NewDE(fmt.Sprintf("of-%d-%d", i, j)).Pub())
+		}
+		if o := r.Deliver(&tsstypes.MsgSubmitDEs{DEs: pubs, Sender: m.Acc.Addr.String()}); !o.OK() {
+			panic(fmt.Sprint("stock DEs: ", o.Err))
 		}
 	}
 	// environment: payer balances of this trace
@@ -101,7 +144,34 @@ func (d *Driver) RunScript(sc tf.Script) {
 	d.Traces++
 	d.Events++
 	interesting := false
+	var openIDs []oracletypes.RequestID
 	for _, st := range sc.Steps {
+		if tf.Str(st, "e", "Request") == "EndBlock" {
+			// every open request is reported by all its validators and resolved by the end-blocker
+			k := d.w.App.OracleKeeper
+			for _, id := range openIDs {
+				rq, err := k.GetRequest(r.Ctx, id)
+				if err != nil {
+					panic(err)
+				}
+				var reps []oracletypes.RawReport
+				for _, raw := range rq.RawRequests {
+					reps = append(reps, oracletypes.NewRawReport(raw.ExternalID, 0, []byte("a")))
+				}
+				for _, v := range rq.RequestedValidators {
+					va, _ := sdk.ValAddressFromBech32(v)
+					if o := r.Deliver(oracletypes.NewMsgReportData(id, reps, va)); !o.OK() {
+						panic(fmt.Sprint("report failed: ", o.Err))
+					}
+				}
+			}
+			openIDs = nil
+			o := r.EndBlock()
+			ob := r.BeginBlock(1)
+			d.W.Step("EndBlock", tf.M{}, tf.M{"ok": o.OK() && ob.OK()}, d.project(r))
+			d.Events++
+			continue
+		}
 		pn := tf.Str(st, "p", "p1")
 		var payer world.Account
 		for _, p := range d.payers {
@@ -125,12 +195,19 @@ func (d *Driver) RunScript(sc tf.Script) {
 			limit = limit.Add(sdk.NewInt64Coin("uxyz", int64(lx)))
 		}
 		calldata := obi.MustEncode(testdata.Wasm4Input{IDs: ids, Calldata: "x"})
-		msg := oracletypes.NewMsgRequestData(world.ScriptW4, calldata, uint64(ask), 1, "c", limit, 100000, 300000, payer.Addr, 0)
+		enc := tf.Bool(st, "enc", false)
+		encoder := oracletypes.ENCODER_UNSPECIFIED
+		if enc {
+			encoder = oracletypes.ENCODER_PROTO
+		}
+		msg := oracletypes.NewMsgRequestData(world.ScriptW4, calldata, uint64(ask), 1, "c", limit, 100000, 300000, payer.Addr, encoder)
 		o := r.Deliver(msg)
 		if !o.OK() {
 			interesting = true
+		} else {
+			openIDs = append(openIDs, oracletypes.RequestID(d.w.App.OracleKeeper.GetRequestCount(r.Ctx)))
 		}
-		d.W.Step("Request", tf.M{"p": pn, "ask": ask, "srcs": srcs, "limit": tf.M{"u": lu, "x": lx}}, tf.M{"ok": o.OK()}, d.project(r))
+		d.W.Step("Request", tf.M{"p": pn, "ask": ask, "srcs": srcs, "limit": tf.M{"u": lu, "x": lx}, "enc": enc}, tf.M{"ok": o.OK()}, d.project(r))
 		d.Events++
 	}
 	if interesting {
@@ -150,7 +227,9 @@ func RandomScript(rng *rand.Rand) tf.Script {
 	c := tf.M{"bal": tf.M{
 		"p1": tf.M{"u": rng.Intn(12), "x": rng.Intn(12)},
 		"p2": tf.M{"u": rng.Intn(30), "x": rng.Intn(30)},
-	}}
+		"t1": tf.M{"u": rng.Intn(8), "x": rng.Intn(8)},
+	}, "fps": rng.Intn(3)}
+	sig := 2 * c["fps"].(int)
 	var steps []tf.M
 	n := 2 + rng.Intn(6)
 	for i := 0; i < n; i++ {
@@ -172,13 +251,25 @@ func RandomScript(rng *rand.Rand) tf.Script {
 		if rng.Intn(3) == 0 {
 			lu, lx = cu+rng.Intn(5), cx+rng.Intn(5)
 		}
+		enc := rng.Intn(2) == 0
+		if enc && rng.Intn(2) == 0 {
+			lu = cu + sig + rng.Intn(3) - 1 // what the data sources leave of the limit is around the signing fee
+		}
 		if lu < 0 {
 			lu = 0
 		}
 		if lx < 0 {
 			lx = 0
 		}
-		steps = append(steps, tf.M{"p": fmt.Sprintf("p%d", 1+rng.Intn(2)), "ask": ask, "srcs": srcs, "limit": tf.M{"u": lu, "x": lx}})
+		who := fmt.Sprintf("p%d", 1+rng.Intn(2))
+		if rng.Intn(4) == 0 {
+			who = "t1" // the payer is the treasury of ds1 and ds4
+		}
+		if i > 0 && rng.Intn(3) == 0 {
+			steps = append(steps, tf.M{"e": "EndBlock"})
+		}
+		steps = append(steps, tf.M{"enc": enc, "p": who, "ask": ask, "srcs": srcs, "limit": tf.M{"u": lu, "x": lx}})
 	}
+	steps = append(steps, tf.M{"e": "EndBlock"})
 	return tf.Script{Fam: "OracleFee", C: c, Steps: steps}
 }
